@@ -311,7 +311,10 @@ func (p *Processor) ChargingDataUpdate(
 		}
 	}
 
-	if len(cdrBytes)+len(chgDataBytes) > math.MaxUint16 {
+	// the record still grows after this check: a partial closure sets the record sequence number when the record is
+	// reopened, and the length octets of the enclosing elements can grow with the usage that is appended
+	const recordGrowthAllowance = 16
+	if len(cdrBytes)+len(chgDataBytes)+recordGrowthAllowance > math.MaxUint16 {
 		var newRecord *cdrType.CHFRecord
 		cdrJson, err := json.Marshal(cdr)
 		if err != nil {
